@@ -772,13 +772,31 @@ def jobmt_stream(pid, ctx):
               "oracles only: never two un-reaped children, every awaited ticket resolves, run markers execute at most once and in each sender's own order, an awaited marker whose ticket resolved was executed")
     return s
 
+def spawnfail_stream(pid, ctx):
+    """C04: the model treats a failed spawn as 'no process' (Jm.St.spawn with a failing behaviour). A spawn that fails AFTER the fork — a
+    wrapper's post_spawn errors — has already created one; that it is gone before the job spawns again rests on process-wrap's
+    KillOnDrop being applied to every command. Validation of that assumption with real `sleep` children, every spawn option."""
+    s = core.StreamResult("spawn-fail")
+    p = subprocess.run([str(core.TARGET / "wxspawnfail")], capture_output=True, text=True, timeout=120)
+    if p.returncode != 0: s.error = f"wxspawnfail failed rc={p.returncode}: {p.stderr[-400:]}"; return s
+    for i, line in enumerate(l for l in p.stdout.splitlines() if l.strip()):
+        s.evaluations += 1
+        m = re.match(r"(\S+) maxlive=(\d+) rounds=(\S*)$", line)
+        if not m: s.oracle_failures.append((i, line, line, f"[{pid}] unparsable answer")); continue
+        s.bump("options=" + m.group(1).split("-")[1]); s.nontrivial.add(m.group(1).encode())
+        if int(m.group(2)) > 1:
+            s.oracle_failures.append((i, m.group(1), line, f"[C04] scenario {m.group(1)}: {m.group(2)} processes of one job alive at once (live counts after each restart: {m.group(3)}): the process of a spawn that failed after the fork was still there when the job spawned again"))
+    s.note = ("real `sleep 30` children through start_job, spawn options plain / grouped / session, a wrapper (public spawn hook) whose post_spawn fails at spawn 0 or 1, restarts "
+              "(plain and graceful): never more than one live process of the job (checked in /proc). Oracle only.")
+    return s
+
 def job_plan(pid, modules, theorems, rule_extra, partial=""):
     def streams(ctx):
         s = job_stream(pid, ctx)
         # an oracle failure is reported under the property it belongs to; others are left to that property's own check
         s.oracle_failures = [f for f in s.oracle_failures if f[3].startswith(f"[{pid}]")]
-        return [s] + ([jobmt_stream(pid, ctx)] if pid in ("C04", "C07", "C10") else [])
-    return dict(translate=True, modules=modules + ["Wx.Job.Api", "Wx.Job.ApiThm", "Wx.Job.ShapesThm", "Wx.Job.Faults", "Wx.Job.FaultsThm"], theorems=theorems + ["Jf.runOpsF_noFaults", "Jf.FInv.runOpsF", "Jm.api_generated", "Jm.jobApi_documented", "Jm.every_control_is_modelled", "Jm.every_model_control_exists", "Jm.priorities_are_the_models", "Jm.command_states_are_the_models"], bins=[("lib", ["wxjob"] + (["wxjobmt"] if pid in ("C04", "C07", "C10") else []))], streams=streams,
+        return [s] + ([jobmt_stream(pid, ctx)] if pid in ("C04", "C07", "C10") else []) + ([spawnfail_stream(pid, ctx)] if pid == "C04" else [])
+    return dict(translate=True, modules=modules + ["Wx.Job.Api", "Wx.Job.ApiThm", "Wx.Job.ShapesThm", "Wx.Job.Faults", "Wx.Job.FaultsThm"], theorems=theorems + ["Jf.runOpsF_noFaults", "Jf.FInv.runOpsF", "Jm.api_generated", "Jm.jobApi_documented", "Jm.every_control_is_modelled", "Jm.every_model_control_exists", "Jm.priorities_are_the_models", "Jm.command_states_are_the_models"], bins=[("lib", ["wxjob"] + (["wxjobmt"] if pid in ("C04", "C07", "C10") else []) + (["wxspawnfail"] if pid == "C04" else []))], streams=streams,
                 sources=["crates/supervisor/src/job/task.rs", "crates/supervisor/src/job/priority.rs", "crates/supervisor/src/job/state.rs", "crates/supervisor/src/job/job.rs",
                          "crates/supervisor/src/job/messages.rs", "crates/supervisor/src/flag.rs"],
                 rule="a case is one script (behaviour list + operation list); non-trivial = at least one child is spawned; distinct by (script body, implementation trace). " + rule_extra,
@@ -1276,7 +1294,23 @@ def worker_stream(pid, ctx):
                 canon = f"{cases[i][0]} batches={','.join('+'.join(ids) for _, ids in got)} errs={errs} filtered={'+'.join(filtered)}"
                 if canon == model[i]: persistent.discard(i)
             if not persistent: break
-        for i in sorted(persistent): s.disagreements.append((i, lines[i], outs[i], model[i]))
+        for i in sorted(persistent):
+            s.disagreements.append((i, lines[i], outs[i], model[i]))
+            # C02 "one action per window … all accepted events that arrive within that window are in that same batch": in these cases (instant
+            # handler, arrivals 20-30 ms away from every window edge) a batch that persistently — in four runs — holds an event sent well after
+            # the window of its first event had elapsed is a window that did not end when it should have
+            cid, thr, hm, arr, changes = cases[i]
+            if pid == "C02" and not changes:
+                sent, got, errs, filtered = parse(outs[i])
+                pr = {a[1]: a[2] for a in arr}
+                for tg, ids in got:
+                    if any(pr.get(x) == "u" for x in ids): continue
+                    known = [x for x in ids if x in sent]
+                    if not known: continue
+                    first = min(sent[x] for x in known)
+                    late = [x for x in known if sent[x] > first + thr * 1000 + 15000]
+                    if late:
+                        s.oracle_failures.append((i, lines[i], outs[i], f"[C02] batch {ids} holds {late}, sent {(max(sent[x] for x in late) - first) / 1000:.0f} ms after the batch's first event although the window is {thr} ms: the window did not end with its first event's throttle period (one action per window)")); break
         s.bump("timing-suspects-rerun", len(suspects))
     s.distribution["worst lateness after window end (us)"] = worst_late
     s.note = ("the real action::worker with own channels in REAL time (std Instant is not virtualised): arrivals on a 50 ms grid with throttles 0/120/170/220 ms (every arrival 20-30 ms away "
@@ -1413,10 +1447,10 @@ def c12_streams(ctx):
             if src == "gg" and gc and not (on[1] or on[5]): want = "pass"     # the project's own core.excludesFile replaces the global git excludes
             if src == "gg" and f[1] == "3": want = "pass"                      # no VCS marker at the origin: the global git excludes are not a source of this project at all
             if a.get(src) != want: return f"flags [{' '.join(n for n, o in zip(flags, on) if o)}]{' (project git config)' if gc else ''}: probe owned by source `{src}` is {a.get(src)}, the flags say {want}"
-        for lab, want in (("ex", "ign"), ("ip", "ign"), ("ok", "pass")):
+        for lab, want in (("ex", "ign"), ("ip", "ign"), ("ok", "pass"), ("keep", "pass")):
             if a.get(lab) != want: return f"flags [{' '.join(n for n, o in zip(flags, on) if o)}]: explicit option probe `{lab}` is {a.get(lab)}, expected {want} whatever the flags"
         fixed = ["fl:pass ok:ign ex:ign", "ff:pass ok:ign", "rs:pass toml:pass brs:ign ok:ign", "create:pass modify:ign",
-                 "rs:pass toml:pass ok:ign", "fl:pass ok:ign", "ip:ign ok:pass", "ex:ign ok:pass"]
+                 "rs:pass toml:pass ok:ign", "fl:pass ok:ign", "ip:ign ok:pass", "ex:ign ok:pass keep:pass"]
         for got, want in zip(rows[1:], fixed):
             if got != want: return f"flags [{' '.join(n for n, o in zip(flags, on) if o)}]: explicit option row is `{got}`, expected `{want}` whatever the flags"
         return None
